@@ -19,8 +19,11 @@ def gen_case(rng):
     nt = rng.choice([1, 1, 2, 2, 3])
     # via: which event carries the emissions - an AST event through emit_event's loop, or (one tracer only: system events are not threaded
     # across the stack, finding C04-sys-events-across-stack) the `call` event of a function of an exec'd sandbox, through tracer._sys_tracer
-    via = "call" if rng.random() < 0.25 else "assign"
-    if via == "call":
+    # ... or the `return` event of that function, or the after_import event of a module imported under the tracer (import_hooks._emit_import_event):
+    # each of the three applies the thread rule and the reentrancy rule on its own, outside emit_event's loop
+    r0 = rng.random()
+    via = "call" if r0 < 0.15 else "return" if r0 < 0.27 else "import" if r0 < 0.4 else "assign"
+    if via != "assign":
         nt = 1
     profile = rng.choice(["plain", "plain", "mixed", "mixed", "optin", "escape", "escape"])
     # "escape": propagated handler exceptions leave nested emissions / regions and are caught further out, by a running handler or at top level
@@ -73,11 +76,11 @@ def gen_case(rng):
     if escape:
         budget[0] += 8
     tops = [top() for _ in range(rng.choice([1, 2, 3] if not escape else [2, 3, 4]))]
-    if via == "call":
+    if via != "assign":
         for t in tracers:
             t["propagate"] = False        # an exception leaving a system-trace handler makes CPython drop the trace function (C06-sys-handler-exception-uninstalls)
         # ctl (Skip / SkipAll) on a 'call' event decides about the frame's tracing, which the harness does not observe: same delivery rule
-        return {"tracers": tracers, "tops": tops, "worker": False, "via": "call"}
+        return {"tracers": tracers, "tops": tops, "worker": False, "via": via}
     return {"tracers": tracers, "tops": tops, "worker": rng.random() < 0.3, "via": "assign"}
 
 
@@ -223,12 +226,13 @@ def run(ctx, model_ok):
     return {
         "evaluations": len(cases),
         "distinct_nontrivial": len({lib.digest(c) for c, im in zip(cases, impl) if sum(count_ems(t) for t in c["tops"]) >= 2}),
-        "rule": "random behaviour trees: 1-3 tracers x 1-3 handlers, 1-4 top-level statements (an emission, a region or a try block around further "
+        "rule": "random behaviour trees (60% started by AST events through emit_event's loop, 15% by the `call` event, 12% by the `return` event of a sandbox function "
+                "through tracer._sys_tracer, 13% by the after_import event of a module through import_hooks._emit_import_event - one tracer each): 1-3 tracers x 1-3 handlers, 1-4 top-level statements (an emission, a region or a try block around further "
                 "statements), nested emissions/regions/try-except up to depth 4, raises 15%, Skip/SkipAll, propagating tracers 25%, three opt-in profiles (none / mixed / "
                 "mostly on) plus an 'escape' profile (propagating tracers 80%, handlers under a try raise 50%: exceptions leave nested emissions and regions and are "
                 "caught by a running handler or at top level, which goes on to run instrumented code); non-trivial = >=2 emissions; distinct by sha1",
         "samples": [cases[0]], "traces_validated": validated,
-        "distribution": {"emissions": ems, "max_handler_nesting_depth_histogram": maxd,
+        "distribution": {"emissions": ems, "started_via": {k: sum(1 for c in cases if c.get("via", "assign") == k) for k in ("assign", "call", "return", "import")}, "max_handler_nesting_depth_histogram": maxd,
                          "top_level_statements_left_by_exception": sum(sum(im.get("raised", [])) for im in impl),
                          "top_level_kinds": {k: sum(1 for c in cases for t in c["tops"] if t["k"] == k) for k in ("em", "region", "catch")},
                          "nested_invocations": sum(1 for im in impl for x in im.get("log", []) if x[0] >= 1)},
